@@ -29,6 +29,8 @@ fn gens(tier: Tier) -> Vec<Gen> {
         Gen { name: "status-codes", count: 100 * 2, exhaustive: true, run: run_status_codes },
         Gen { name: "non-ascii-location", count: (5 * 4) as u64, exhaustive: true, run: run_non_ascii_location },
         Gen { name: "non-http-location-via-proxy", count: (5 * 4 * 2) as u64, exhaustive: true, run: run_non_http_via_proxy },
+        Gen { name: "sequential-server", count: 6, exhaustive: true, run: run_sequential_server },
+        Gen { name: "non-http-location-to-a-live-port", count: (5 * 5) as u64, exhaustive: true, run: run_non_http_live_port },
         Gen { name: "chains", count: (9 * 10 * 2) as u64, exhaustive: true, run: run_chains },
         Gen { name: "webs", count: tier.pick(6_000, 500_000), exhaustive: false, run: run_web },
     ]
@@ -481,6 +483,113 @@ fn run_non_http_via_proxy(ctx: &mut Ctx, _rng: &mut Rng, index: u64) {
     ctx.count("non_http_scheme_location", 1);
     if res.is_ok() || world.dial_count() != 1 {
         ctx.violation("non-http-location-followed", format!("a Location with a non-http scheme must end the exchange with an error and no further request; {descr}"));
+    }
+    ctx.nontrivial(descr.as_bytes());
+}
+
+/// a real loopback origin that serves ONE connection at a time: it answers, waits for the client
+/// to close (lingering close, up to 5 s) and only then accepts the next connection. Every request
+/// announces `Connection: close`, so a chain well inside the budget still ends where the server
+/// pointed - which needs the connection of a hop to be gone before the next hop waits for its answer
+fn run_sequential_server(ctx: &mut Ctx, _rng: &mut Rng, index: u64) {
+    use std::io::{Read, Write};
+    if crate::framework::miri_mode() {
+        ctx.gray();
+        return;
+    }
+    let hops = [2usize, 3, 5][(index % 3) as usize];
+    let status = [302u16, 307][((index / 3) % 2) as usize];
+    let listener = match std::net::TcpListener::bind("127.0.0.1:0") {
+        Ok(l) => l,
+        Err(e) => return ctx.inconclusive(format!("bind failed: {e}")),
+    };
+    let port = listener.local_addr().unwrap().port();
+    let stop = std::sync::Arc::new(std::sync::atomic::AtomicBool::new(false));
+    let stop2 = stop.clone();
+    let _ = listener.set_nonblocking(true);
+    let served = std::sync::Arc::new(std::sync::Mutex::new(Vec::<(String, u128)>::new()));
+    let served2 = served.clone();
+    let handle = std::thread::spawn(move || {
+        while !stop2.load(std::sync::atomic::Ordering::Relaxed) {
+            let (mut s, _) = match listener.accept() {
+                Ok(x) => x,
+                Err(_) => {
+                    std::thread::sleep(std::time::Duration::from_millis(2));
+                    continue;
+                }
+            };
+            let _ = s.set_nonblocking(false);
+            let _ = s.set_read_timeout(Some(std::time::Duration::from_secs(5)));
+            let head = crate::netsrv::read_head(&mut s);
+            let target = String::from_utf8_lossy(head.split(|&b| b == b' ').nth(1).unwrap_or(b"")).into_owned();
+            let n: usize = target.trim_start_matches("/hop").parse().unwrap_or(usize::MAX);
+            let resp = if n + 1 < hops { format!("HTTP/1.1 {status} Moved\r\nLocation: /hop{}\r\nContent-Length: 0\r\n\r\n", n + 1) } else { "HTTP/1.1 200 OK\r\nContent-Length: 3\r\n\r\nend".to_owned() };
+            let _ = s.write_all(resp.as_bytes());
+            // lingering close: wait for the client to close its side (or 5 s)
+            let t = std::time::Instant::now();
+            let mut b = [0u8; 256];
+            loop {
+                match s.read(&mut b) {
+                    Ok(0) | Err(_) => break,
+                    Ok(_) => {}
+                }
+            }
+            served2.lock().unwrap().push((target, t.elapsed().as_millis()));
+        }
+    });
+    let t0 = std::time::Instant::now();
+    let res = attohttpc::get(format!("http://127.0.0.1:{port}/hop0")).read_timeout(std::time::Duration::from_millis(1500)).connect_timeout(std::time::Duration::from_secs(3)).send().map_err(|e| format!("{e:?}")).and_then(|r| {
+        let st = r.status().as_u16();
+        let u = r.url().path().to_owned();
+        r.text().map(|t| (st, u, t)).map_err(|e| format!("{e:?}"))
+    });
+    let elapsed = t0.elapsed();
+    stop.store(true, std::sync::atomic::Ordering::Relaxed);
+    let _ = handle.join();
+    let log = served.lock().unwrap().clone();
+    let descr = format!("chain of {hops} hops ({status}) on an origin that serves one connection at a time and lingers until the client closes; read timeout 1.5 s: {res:?} after {elapsed:?}; served (target, ms the server waited for the client's close): {log:?}");
+    ctx.count("sequential_server_chains", 1);
+    match &res {
+        Ok((200, path, body)) if *path == format!("/hop{}", hops - 1) && body == "end" => {}
+        _ => ctx.violation("chain-does-not-end-where-the-server-pointed:sequential-server", descr.clone()),
+    }
+    ctx.nontrivial(format!("seqsrv{index}").as_bytes());
+    ctx.sample(|| json!({"gen": "sequential-server", "hops": hops, "elapsed_ms": elapsed.as_millis() as u64}));
+}
+
+/// a Location with a scheme other than http/https that names a port where something DOES listen
+/// (a real loopback listener): still an error, and the listener sees no connection - the scheme is
+/// checked for every hop, not only for the URL the caller gave
+fn run_non_http_live_port(ctx: &mut Ctx, _rng: &mut Rng, index: u64) {
+    let status = [301u16, 302, 303, 307, 308][(index % 5) as usize];
+    let scheme = ["ftp", "ws", "gopher", "foo", "httpx"][((index / 5) % 5) as usize];
+    if crate::framework::miri_mode() {
+        // (real sockets: not under the interpreter)
+        ctx.gray();
+        return;
+    }
+    let server: crate::netsrv::Server<Vec<u8>> = crate::netsrv::Server::spawn(move |mut s: std::net::TcpStream| {
+        let _ = s.set_read_timeout(Some(std::time::Duration::from_millis(500)));
+        let head = crate::netsrv::read_head(&mut s);
+        crate::netsrv::write_all_ignore(&mut s, b"HTTP/1.1 200 OK\r\nContent-Length: 2\r\n\r\nok");
+        head
+    });
+    let location = format!("{scheme}://127.0.0.1:{}/pub/file", server.port);
+    let loc2 = location.clone();
+    let world = World::install(move |_, idx, _| {
+        let resp = if idx == 0 { format!("HTTP/1.1 {status} Moved\r\nLocation: {loc2}\r\nContent-Length: 0\r\n\r\n").into_bytes() } else { b"HTTP/1.1 200 OK\r\nContent-Length: 2\r\n\r\nok".to_vec() };
+        crate::transport::Answer::Script(vec![crate::transport::Step::Data(resp)], crate::transport::WriteFaults::default())
+    });
+    let res = attohttpc::get("http://a.test/start").connect_timeout(std::time::Duration::from_secs(2)).read_timeout(std::time::Duration::from_secs(2)).send();
+    let shown = res.as_ref().map(|r| (r.status().as_u16(), r.url().to_string())).map_err(|e| format!("{e:?}"));
+    let dials = world.dial_count();
+    drop(world);
+    let seen = server.finish();
+    let descr = format!("GET http://a.test/start -> {status} Location: {location} (a live loopback listener): {shown:?}; {dials} scripted connections, the listener saw {} connection(s): {:?}", seen.len(), seen.iter().map(|h| crate::framework::show(&h[..h.len().min(60)])).collect::<Vec<_>>());
+    ctx.count("non_http_scheme_location", 1);
+    ctx.count("non_http_locations_naming_a_live_port", 1);
+    if res.is_ok() || dials != 1 || !seen.is_empty() {
+        ctx.violation("non-http-location-followed:live-port", format!("a Location with a non-http scheme must end the exchange with an error and no further connection; {descr}"));
     }
     ctx.nontrivial(descr.as_bytes());
 }
